@@ -95,12 +95,27 @@ Definition config_eqb (a b : config) : bool :=
   | _, _ => false
   end.
 
+(* the hypothesis of the theorems, checked on every case: relay maps are key-unique *)
+Fixpoint nodupb (l : list N) : bool :=
+  match l with
+  | [] => true
+  | x :: l' => negb (memb N.eqb x l') && nodupb l'
+  end.
+
+Definition wf_config_b (c : config) : bool :=
+  match c with
+  | CV1 c1 => nodupb (map fst (c1_props c1))
+  | CV2 c2 => nodupb (map fst (e_relays c2))
+              && forallb (fun p => nodupb (map fst (p_relays p))) (e_props c2)
+  end.
+
 (* ---- the model's prediction of the whole pipeline ---- *)
 Definition agree (c : case) : bool :=
   match unmarshal (c_doc c) with
   | None => negb (c_ok1 c)
   | Some cfg0 =>
       c_ok1 c
+      && wf_config_b cfg0
       && option_eqb config_eqb (Some cfg0) (c_parsed c)
       && (let r1 := lookups cfg0 (c_vals c) (c_fbfee c) (c_fbgas c) in
           list_eqb outcome_eqb r1 (c_out1 c)
